@@ -77,10 +77,10 @@ class H1(Case):
                  "SimpleProcessTensor.get_mpo_tensor", "SimpleProcessTensor.compute_caps", "PtTempoBackend.*",
                  "system_dynamics.compute_dynamics", "operators.left_right_super")
 
-    def __init__(self, method, N, kind, K=None, props="gen"):
-        self.method, self.N, self.kind, self.K, self.props = method, N, kind, K, props
-        self.id = "H1/%s_%s_N%d_K%s_%s" % (method, kind, N, K, props)
-        self.bounds = {"method": method, "d": 2, "N": N, "unitary": kind, "dkmax": K, "propagators": props}
+    def __init__(self, method, N, kind, K=None, props="gen", unique=False):
+        self.method, self.N, self.kind, self.K, self.props, self.unique = method, N, kind, K, props, unique
+        self.id = "H1/%s_%s_N%d_K%s_%s%s" % (method, kind, N, K, props, "_unique" if unique else "")
+        self.bounds = {"method": method, "d": 2, "N": N, "unitary": kind, "dkmax": K, "propagators": props, "unique": unique}
         self.timeout_s = 900
         self.first_timeout_s = 300
 
@@ -108,20 +108,35 @@ class H1(Case):
         P2 = [P if P is ident else SU.dot(P).dot(SUd) for P in P2e]
         rho0e = inp.arr("r", (D,))
         rho0 = SU.dot(rho0e)
+        ukw, maps = {}, None
+        infl_u = infl
+        if self.unique:
+            # degeneracy structure of a non-degenerate two-level coupling: north trivial, west {0,3} merged
+            maps = [np.arange(4), np.array([0, 1, 2, 0])]
+            ukw = dict(degeneracy_maps=maps, sum_north=np.ones(4), sum_west=np.ones(3))
+
+            def infl_u(dk):
+                m = infl(dk)
+                if m is None:
+                    return None
+                if dk == 0:
+                    return np.array([m[i, i] for i in range(D)], dtype=m.dtype)
+                return m[:, [0, 1, 2]]
         if self.method == "tempo":
-            A = lib.run_tempo(inp, rho0, infl, P1, P2, N, K, d, unitary=W)
+            A = lib.run_tempo(inp, rho0, infl_u, P1, P2, N, K, d, unitary=W, **ukw)
             B = lib.run_tempo(inp, rho0e, infl, P1e, P2e, N, K, d)
         elif self.method == "mf":
-            def mf(r0, p1, p2, U):
-                be = MeanFieldTempoBackend([r0], 1.0, [infl], [U], [lambda step, f, df: (p1[step], p2[step])],
+            def mf(r0, p1, p2, U, uq=False):
+                be = MeanFieldTempoBackend([r0], 1.0, [infl_u if uq else infl], [U], [lambda step, f, df: (p1[step], p2[step])],
                                            lambda step, sl, f, nsl: f, lambda step, sl, f: 0.0,
-                                           [np.ones(D)], [np.ones(D)], K, lib.EPS_REAL, {}, degeneracy_maps_list=[None], dim_list=[d])
+                                           [np.ones(D)], [np.ones(3) if uq else np.ones(D)], K, lib.EPS_REAL, {},
+                                           degeneracy_maps_list=[maps if uq else None], dim_list=[d])
                 be.initialize()
                 out = [r0]
                 for _ in range(N):
                     out.append(be.compute_step()[1][0])
                 return out
-            A = mf(rho0, P1, P2, W)
+            A = mf(rho0, P1, P2, W, self.unique)
             B = mf(rho0e, P1e, P2e, np.identity(d))
         else:
             p = ptmod.PtTempo.__new__(ptmod.PtTempo)
@@ -295,7 +310,8 @@ def _make_allclose(inp, contingent):
 
 def cases(tier):
     cs = [H1("tempo", 2, "su2", None, "id"), H1("tempo", 2, "su2", 1, "id"), H1("pt", 2, "su2", None, "id"), H1("pt", 2, "su2", 1, "id"),
-          H1("mf", 2, "su2", 1, "id"), H1("tempo", 1, "su2", None, "gen"), H1("mf", 1, "su2", None, "gen"), H1("pt", 2, "su2", None, "gen0"),
+          H1("mf", 2, "su2", 1, "id"), H1("tempo", 2, "su2", 1, "id", unique=True), H1("mf", 2, "su2", None, "id", unique=True),
+          H1("tempo", 1, "su2", None, "gen", unique=True), H1("tempo", 1, "su2", None, "gen"), H1("mf", 1, "su2", None, "gen"), H1("pt", 2, "su2", None, "gen0"),
           H1("tempo", 2, "rot", 1, "gen0"), H1("pt", 2, "rot", 1, "gen0"), H1("tempo", 3, "su2", 1, "gen0"), H1("pt", 3, "su2", 1, "gen0"),
           H2("p110"), H2("p123"), H2("p011")]
     if tier == "thorough":
